@@ -106,6 +106,13 @@ class Lib(T):
         self.kind, self.fields = kind, fields
 
 
+class ClsT(T):
+    """A reference to a repository class (first argument of a classmethod)."""
+
+    def __init__(self, relpath, cls):
+        self.relpath, self.cls = relpath, cls
+
+
 class Any(T):
     """An arbitrary decoded CBOR value (Plain sum)."""
 
@@ -186,6 +193,8 @@ def make_value(it, t, name: str) -> V:
         return cbor.enc(it, v)
     if isinstance(t, Lib):
         return VLib(t.kind, **{k: make_value(it, v, f"{name}.{k}") if isinstance(v, (T, type)) else v for k, v in t.fields.items()})
+    if isinstance(t, ClsT):
+        return VClass(info=it.get_class(t.relpath, t.cls))
     if isinstance(t, Any):
         from . import plain
         return plain.fresh(it, name)
